@@ -12,8 +12,11 @@ import (
 	"bufio"
 	"bytes"
 	"context"
+	"crypto/elliptic"
+	"encoding/asn1"
 	"encoding/json"
 	"fmt"
+	"math/big"
 	"os"
 	"runtime"
 	"strconv"
@@ -188,6 +191,20 @@ func c04Mutate(mut string, hs []byte) []byte { //nolint:cyclop,gocognit
 		return append(append([]extension.Value(nil), exts[:i]...), exts[i+1:]...)
 	}
 	switch m := h.Message.(type) {
+	case *handshake.MessageCertificateVerify:
+		// another VALID encoding of the same ECDSA signature (r, n-s): the message is altered in transit although its
+		// signature still verifies - only the Finished check over the transcript can notice
+		if mut == "sig-malleate" {
+			if alt := c04MalleateECDSA(m.Signature); alt != nil {
+				m.Signature, changed = alt, true
+			}
+		}
+	case *handshake.MessageServerKeyExchange:
+		if mut == "sig-malleate" && len(m.Signature) > 0 {
+			if alt := c04MalleateECDSA(m.Signature); alt != nil {
+				m.Signature, changed = alt, true
+			}
+		}
 	case *handshake.MessageClientHello:
 		switch {
 		case mut == "suites-reverse" && len(m.CipherSuiteIDs) > 1:
@@ -255,6 +272,25 @@ func c04Mutate(mut string, hs []byte) []byte { //nolint:cyclop,gocognit
 	}
 
 	return raw
+}
+
+// c04MalleateECDSA returns the DER encoding of (r, n-s) for a DER ECDSA P-256 signature (r, s); nil if it is none.
+func c04MalleateECDSA(sig []byte) []byte {
+	var rs struct{ R, S *big.Int }
+	if rest, err := asn1.Unmarshal(sig, &rs); err != nil || len(rest) != 0 || rs.R == nil || rs.S == nil {
+		return nil
+	}
+	n := elliptic.P256().Params().N
+	if rs.S.Sign() <= 0 || rs.S.Cmp(n) >= 0 {
+		return nil
+	}
+	rs.S = new(big.Int).Sub(n, rs.S)
+	out, err := asn1.Marshal(rs)
+	if err != nil {
+		return nil
+	}
+
+	return out
 }
 
 func runC04Case(idx int, cs *c04Case) (res c04Result) { //nolint:cyclop,gocognit
